@@ -211,9 +211,10 @@ impl Plan {
         };
         // filter expressions, each as Registry.with(rec.with_filter(X)), with direct calls
         push("expr depth<=1 over all leaves", Seg::Expr(ExprEnum::new(all_leaves(), 1)));
-        let alpha = args.get("alpha").unwrap_or(if thorough { "full" } else { "core" });
+        let alpha = args.get("alpha").unwrap_or(if thorough { "wide" } else { "core" });
         let leaves2 = match alpha {
             "full" => all_leaves(),
+            "wide" => wide_leaves(),
             "mid" => mid_leaves(),
             "small" => small_leaves(),
             _ => core_leaves(),
@@ -800,7 +801,7 @@ fn judge(idx: u64, seg: &str, spec: &StackSpec, o: &UnitObs, out: &mut Out) {
         let w = json!({
             "unit": idx, "segment": seg, "stack": spec.desc(), "scope": g.scope, "problem": g.kind.text(),
             "cases": g.count, "examples": g.examples,
-            "child_args": [TIER_NAME.get().map(|s| s.as_str()).unwrap_or("quick"), "--child", "u", "--seed", SEED.get().copied().unwrap_or(1).to_string(), "--shard", "0", "--nshards", "1", format!("only={idx}")],
+            "child_args": replay_args(idx),
         });
         match fid {
             Some(f) => {
@@ -818,6 +819,24 @@ const NONE_MARKER_ID: &str = "F26";
 const FILTERED_GLOBAL_ID: &str = "F27";
 static TIER_NAME: OnceLock<String> = OnceLock::new();
 static SEED: OnceLock<u64> = OnceLock::new();
+/// plan-shaping overrides (alpha= / rand=) the unit index depends on
+static PLAN_KV: OnceLock<Vec<String>> = OnceLock::new();
+fn replay_args(idx: u64) -> Vec<String> {
+    let mut v: Vec<String> = vec![
+        TIER_NAME.get().cloned().unwrap_or_else(|| "quick".into()),
+        "--child".into(),
+        "u".into(),
+        "--seed".into(),
+        SEED.get().copied().unwrap_or(1).to_string(),
+        "--shard".into(),
+        "0".into(),
+        "--nshards".into(),
+        "1".into(),
+        format!("only={idx}"),
+    ];
+    v.extend(PLAN_KV.get().cloned().unwrap_or_default());
+    v
+}
 fn finding_text(f: &str) -> &'static str {
     match f {
         "F10" => "an empty Vec of layers answers Interest::never / Some(OFF) while its enabled() accepts everything: the stack's summary silences layers that the uncached path reaches",
@@ -835,6 +854,7 @@ fn finding_text(f: &str) -> &'static str {
 fn child(args: &Args) {
     let _ = TIER_NAME.set(args.tier.name().to_string());
     let _ = SEED.set(args.seed);
+    let _ = PLAN_KV.set(args.kv.iter().filter(|(k, _)| k.as_str() == "alpha" || k.as_str() == "rand").map(|(k, v)| format!("{k}={v}")).collect());
     let plan = Arc::new(Plan::new(args));
     let total = plan.total();
     let stride = args.get_u64("stride", 1).max(1);
@@ -884,7 +904,7 @@ fn child(args: &Args) {
                             out.violation(
                                 "panic inside the code under test",
                                 json!({"unit": idx, "segment": seg, "stack": spec.desc(), "panic": msg,
-                                       "child_args": [TIER_NAME.get().unwrap().as_str(), "--child", "u", "--seed", seed.to_string(), "--shard", "0", "--nshards", "1", format!("only={idx}")]}),
+                                       "child_args": replay_args(idx)}),
                             );
                             return (out, p + 1, true);
                         }
@@ -916,6 +936,13 @@ fn parent(args: &Args) {
     let t0 = Instant::now();
     let mut out = Out::new();
     let plan = Plan::new(args);
+    if args.get("plan").is_some() {
+        for (name, _, n) in &plan.segs {
+            println!("{n:>12}  {name}");
+        }
+        println!("{:>12}  total", plan.total());
+        std::process::exit(0);
+    }
     let shards = args.get_u64("shards", args.tier.pick(64, 512));
     let mut spec = ChildSpec::new("u", shards).timeout(args.tier.pick(600, 3000));
     for (k, v) in &args.kv {
@@ -988,8 +1015,8 @@ fn parent(args: &Args) {
                 "context spans are ERROR-level spans created through the same stack; a context a filter rejects degenerates to `no span` for that filter".into(),
             ],
             // developer overrides (only= / stride= / rand= / alpha=) run reduced workloads
-            min_evals: if args.kv.is_empty() { args.tier.pick(200_000_000, 2_000_000_000) } else { 1 },
-            min_distinct: if args.kv.is_empty() { args.tier.pick(5_000, 10_000) } else { 1 },
+            min_evals: if args.kv.is_empty() { args.tier.pick(200_000_000, 3_000_000_000) } else { 1 },
+            min_distinct: if args.kv.is_empty() { args.tier.pick(5_000, 50_000) } else { 1 },
             exhaustive,
             extra,
         },
